@@ -685,6 +685,7 @@ package apd
 //@   ensures [p0] !disableIfPrecisionZero && c.Precision == 0 && ctxsane(c) && r == c.Rounding && old(x.Form == Finite && inv(x) && inrange(x) && val(x.Coeff) != 0) && old(x.Exponent) + nd10(old(val(x.Coeff))) - 1 >= c.MinExponent && nd10(old(val(x.Coeff))) <= 100000 && old(x.Exponent) + nd10(old(val(x.Coeff))) <= c.MaxExponent && old(x.Exponent) + nd10(old(val(x.Coeff))) >= -100000 ==> (d.Form == Finite && val(d.Coeff) == RND(r, old(x.Negative), old(val(x.Coeff)), nd10(old(val(x.Coeff)))) && d.Exponent == old(x.Exponent) + nd10(old(val(x.Coeff))) && has(ret, Inexact) && has(ret, Rounded) && only(ret, Inexact | Rounded | Clamped))
 //@   ensures [p0zero] !disableIfPrecisionZero && c.Precision == 0 && ctxsane(c) && r == c.Rounding && old(x.Form == Finite && inv(x) && inrange(x) && val(x.Coeff) == 0) && old(x.Exponent) + 1 >= c.MinExponent && old(x.Exponent) + 1 <= c.MaxExponent ==> (d.Form == Finite && val(d.Coeff) == 0 && d.Exponent == old(x.Exponent) + 1 && none(ret, Inexact) && only(ret, Rounded | Clamped))
 //@   ensures [nadj] old(finwf(c, x)) && r == c.Rounding && old(val(x.Coeff)) != 0 ==> NADJ(c, old(x.Negative), old(val(x.Coeff)), old(x.Exponent)) == old(x.Exponent) + nd10(old(val(x.Coeff))) - 1 + NCARRY(c, old(x.Negative), old(val(x.Coeff))) && (NCARRY(c, old(x.Negative), old(val(x.Coeff))) == 1 ==> NSH(c, old(val(x.Coeff))) > 0)
+//@   ensures [ident] old(finwf(c, x)) && r == c.Rounding && nd10(old(val(x.Coeff))) <= c.Precision && old(x.Exponent) >= etiny(c) && old(x.Exponent) + nd10(old(val(x.Coeff))) - 1 <= c.MaxExponent ==> (d.Form == Finite && val(d.Coeff) == old(val(x.Coeff)) && d.Exponent == old(x.Exponent) && none(ret, Inexact | Overflow | Underflow | SystemOverflow | SystemUnderflow) && (has(ret, Subnormal) <==> (old(val(x.Coeff)) != 0 && old(x.Exponent) + nd10(old(val(x.Coeff))) - 1 < c.MinExponent)))
 //@   ensures [zero] old(finwf(c, x)) && r == c.Rounding && old(val(x.Coeff)) == 0 ==> RZero(c, old(x.Negative), old(x.Exponent), d, ret)
 //@   ensures [sub] old(finwf(c, x)) && r == c.Rounding && old(val(x.Coeff)) != 0 && old(x.Exponent) + nd10(old(val(x.Coeff))) - 1 < c.MinExponent ==> RSub(c, old(x.Negative), old(val(x.Coeff)), old(x.Exponent), d, ret)
 //@   ensures [sys] old(finwf(c, x)) && r == c.Rounding && old(val(x.Coeff)) != 0 && old(x.Exponent) + nd10(old(val(x.Coeff))) - 1 >= c.MinExponent ==> (has(ret, SystemOverflow) <==> NSYS(c, old(x.Negative), old(val(x.Coeff)), old(x.Exponent))) && !has(ret, SystemUnderflow)
@@ -738,6 +739,7 @@ package apd
 //@   ensures [rounded] wfctx(c) && old(x.Form) == Finite ==> Rounded(c, old(x.Negative), old(val(x.Coeff)), old(x.Exponent), d, ret)
 //@   ensures [fits] wfctx(c) && !hassys(ret) ==> fits(c, d)
 //@   ensures [shape] d.Negative == old(x.Negative) && (d.Form == old(x.Form) || d.Form == Infinite)
+//@   ensures [ident] old(finwf(c, x)) && nd10(old(val(x.Coeff))) <= c.Precision && old(x.Exponent) >= etiny(c) && old(x.Exponent) + nd10(old(val(x.Coeff))) - 1 <= c.MaxExponent ==> (d.Form == Finite && val(d.Coeff) == old(val(x.Coeff)) && d.Exponent == old(x.Exponent) && none(ret, Inexact | Overflow | Underflow | SystemOverflow | SystemUnderflow) && (has(ret, Subnormal) <==> (old(val(x.Coeff)) != 0 && old(x.Exponent) + nd10(old(val(x.Coeff))) - 1 < c.MinExponent)))
 //@   ensures [sysiff] wfctx(c) && old(x.Form) == Finite ==> SysIff(c, old(x.Negative), old(val(x.Coeff)), old(x.Exponent), ret)
 //@   ensures [esys] old(x.Exponent) < -100000 || old(x.Exponent) > 100000 ==> hassys(ret)
 //@   ensures [infovf] old(finwfI(c, x)) && old(x.Exponent) + nd10(old(val(x.Coeff))) - 1 > c.MaxExponent ==> hassys(ret) || (d.Form == Infinite && d.Negative == old(x.Negative) && only(ret, Rounded | Inexact | Overflow | Clamped))
@@ -1444,6 +1446,11 @@ package apd
 
 // ---------------------------------------------------------------- Quantize, RoundToIntegral, Ceil, Floor (C09)
 
+//@ define QV(c: *Context, x: *Decimal, e: int): int = ite(e <= x.Exponent, val(x.Coeff) * pow10(x.Exponent - e), RND(c.Rounding, x.Negative, val(x.Coeff), e - x.Exponent))
+//@ define qguard(c: *Context, x: *Decimal, e: int): bool = x.Form == Finite && inrange(x) && -100000 <= e && e <= 100000 && x.Exponent - e <= 100000 && e - x.Exponent < 100000 && (e > x.Exponent ==> nd10(val(x.Coeff)) - (e - x.Exponent) <= c.MaxExponent)
+//@ define intpart(x: *Decimal): int = ite(x.Exponent > 0, val(x.Coeff), div(val(x.Coeff), pow10(-x.Exponent)))
+//@ define fracnz(x: *Decimal): bool = x.Exponent < 0 && mod(val(x.Coeff), pow10(-x.Exponent)) != 0
+
 //@ func (*Context).quantize
 //@   props C02 C04 C06 C09 C20
 //@   requires writable(d) && inv(v)
@@ -1455,13 +1462,15 @@ package apd
 //@   ensures [downneg] ctxsane(c) && old(v.Form == Finite && inrange(v)) && -100000 <= exp && exp <= 100000 && exp > old(v.Exponent) && exp - old(v.Exponent) <= 100000 && nd10(old(val(v.Coeff))) < exp - old(v.Exponent) && nd10(old(val(v.Coeff))) - (exp - old(v.Exponent)) <= c.MaxExponent && c.MaxExponent >= 0 ==> (val(d.Coeff) == RND(c.Rounding, old(v.Negative), old(val(v.Coeff)), exp - old(v.Exponent)) && d.Exponent == exp && d.Form == Finite && (has(ret, Inexact) <==> RR(old(val(v.Coeff)), exp - old(v.Exponent)) != 0) && (has(ret, Inexact) ==> has(ret, Rounded)) && only(ret, Inexact | Rounded | Clamped))
 //@   ensures [downzero] ctxsane(c) && old(v.Form == Finite && inrange(v)) && -100000 <= exp && exp <= 100000 && exp > old(v.Exponent) && exp - old(v.Exponent) <= 100000 && nd10(old(val(v.Coeff))) == exp - old(v.Exponent) && nd10(old(val(v.Coeff))) - (exp - old(v.Exponent)) <= c.MaxExponent && c.MaxExponent >= 0 ==> (val(d.Coeff) == RND(c.Rounding, old(v.Negative), old(val(v.Coeff)), exp - old(v.Exponent)) && d.Exponent == exp && d.Form == Finite && (has(ret, Inexact) <==> RR(old(val(v.Coeff)), exp - old(v.Exponent)) != 0) && (has(ret, Inexact) ==> has(ret, Rounded)) && only(ret, Inexact | Rounded | Clamped))
 //@   ensures [downpos] ctxsane(c) && old(v.Form == Finite && inrange(v)) && -100000 <= exp && exp <= 100000 && exp > old(v.Exponent) && exp - old(v.Exponent) <= 100000 && nd10(old(val(v.Coeff))) > exp - old(v.Exponent) && nd10(old(val(v.Coeff))) - (exp - old(v.Exponent)) <= c.MaxExponent && c.MaxExponent >= 0 ==> hassys(ret) || (val(d.Coeff) == RND(c.Rounding, old(v.Negative), old(val(v.Coeff)), exp - old(v.Exponent)) && d.Exponent == exp && d.Form == Finite && (has(ret, Inexact) <==> RR(old(val(v.Coeff)), exp - old(v.Exponent)) != 0) && (has(ret, Inexact) ==> has(ret, Rounded)) && only(ret, Inexact | Rounded | Clamped))
-//@   ensures [up] old(inrange(v)) && -100000 <= exp && exp <= 100000 && exp <= old(v.Exponent) && old(v.Exponent) - exp <= 100000 ==> (val(d.Coeff) == old(val(v.Coeff)) * pow10(old(v.Exponent) - exp) && d.Exponent == exp && ret == 0)
+//@   ensures [downnosys] ctxsane(c) && old(v.Form == Finite && inrange(v)) && -100000 <= exp && exp <= 100000 && exp > old(v.Exponent) && exp - old(v.Exponent) < 100000 && nd10(old(val(v.Coeff))) > exp - old(v.Exponent) && nd10(old(val(v.Coeff))) - (exp - old(v.Exponent)) <= c.MaxExponent && c.MaxExponent >= 0 ==> !hassys(ret)
+//@   ensures [up] old(inrange(v)) && -100000 <= exp && exp <= 100000 && exp <= old(v.Exponent) && old(v.Exponent) - exp <= 100000 ==> (val(d.Coeff) == old(val(v.Coeff)) * pow10(old(v.Exponent) - exp) && d.Exponent == exp && d.Form == old(v.Form) && ret == 0)
 
 //@ func (*Context).toIntegral
 //@   props C02 C04 C06 C09
 //@   requires writable(d) && inv(x)
 //@   assigns d
 //@   ensures [inv] inv(d) && closed(ret) && (d.Form == old(x.Form) || d.Form == Infinite) && d.Negative == old(x.Negative)
+//@   ensures [value] ctxsane(c) && c.MaxExponent >= 0 && old(qguard(c, x, 0)) ==> hassys(ret) || (d.Form == Finite && val(d.Coeff) == old(QV(c, x, 0)) && d.Exponent == 0 && (has(ret, Inexact) <==> (0 > old(x.Exponent) && RR(old(val(x.Coeff)), -old(x.Exponent)) != 0)) && (has(ret, Inexact) ==> has(ret, Rounded)) && only(ret, Inexact | Rounded | Clamped))
 
 //@ func (*Context).toIntegralSpecials
 //@   props C03 C04 C06 C08 C09
@@ -1485,6 +1494,7 @@ package apd
 //@   ensures [trap] ret1 != nil <==> trapped(c, ret0)
 //@   ensures [nan] NaN1(x, d, ret0)
 //@   ensures [inf] Inf1(x, old(x.Negative), d, ret0)
+//@   ensures [value] ctxsane(c) && c.MaxExponent >= 0 && old(qguard(c, x, 0)) ==> hassys(ret0) || (d.Form == Finite && val(d.Coeff) == old(QV(c, x, 0)) && d.Exponent == 0 && d.Negative == old(x.Negative) && only(ret0, Clamped))
 
 //@ func (*Context).RoundToIntegralExact
 //@   props C02 C03 C04 C05 C06 C08 C09
@@ -1496,6 +1506,7 @@ package apd
 //@   ensures [trap] ret1 != nil <==> trapped(c, ret0)
 //@   ensures [nan] NaN1(x, d, ret0)
 //@   ensures [inf] Inf1(x, old(x.Negative), d, ret0)
+//@   ensures [value] ctxsane(c) && c.MaxExponent >= 0 && old(qguard(c, x, 0)) ==> hassys(ret0) || (d.Form == Finite && val(d.Coeff) == old(QV(c, x, 0)) && d.Exponent == 0 && d.Negative == old(x.Negative) && (has(ret0, Inexact) <==> (0 > old(x.Exponent) && RR(old(val(x.Coeff)), -old(x.Exponent)) != 0)) && (has(ret0, Inexact) ==> has(ret0, Rounded)) && only(ret0, Inexact | Rounded | Clamped))
 
 //@ func (*Context).Quantize
 //@   props C02 C03 C04 C05 C06 C07 C08 C09
@@ -1507,6 +1518,11 @@ package apd
 //@   ensures [trap] ret1 != nil <==> trapped(c, ret0)
 //@   ensures [nan] NaN1(x, d, ret0)
 //@   ensures [inf] old(x.Form) == Infinite ==> (d.Form == NaN && ret0 == InvalidOperation)
+//@   ensures [valueup] wfctx(c) && old(qguard(c, x, exp)) && exp <= old(x.Exponent) && etiny(c) <= exp && exp <= c.MaxExponent && nd10(old(val(x.Coeff)) * pow10(old(x.Exponent) - exp)) <= c.Precision && exp + nd10(old(val(x.Coeff)) * pow10(old(x.Exponent) - exp)) - 1 <= c.MaxExponent ==> (d.Form == Finite && val(d.Coeff) == old(val(x.Coeff)) * pow10(old(x.Exponent) - exp) && d.Exponent == exp && d.Negative == old(x.Negative) && (has(ret0, Inexact) <==> (exp > old(x.Exponent) && RR(old(val(x.Coeff)), exp - old(x.Exponent)) != 0)) && (has(ret0, Inexact) ==> has(ret0, Rounded)))
+//@   ensures [valuedown] wfctx(c) && old(qguard(c, x, exp)) && exp > old(x.Exponent) && etiny(c) <= exp && exp <= c.MaxExponent && nd10(RND(c.Rounding, old(x.Negative), old(val(x.Coeff)), exp - old(x.Exponent))) <= c.Precision && exp + nd10(RND(c.Rounding, old(x.Negative), old(val(x.Coeff)), exp - old(x.Exponent))) - 1 <= c.MaxExponent ==> hassys(ret0) || (d.Form == Finite && val(d.Coeff) == RND(c.Rounding, old(x.Negative), old(val(x.Coeff)), exp - old(x.Exponent)) && d.Exponent == exp && d.Negative == old(x.Negative) && (has(ret0, Inexact) <==> (exp > old(x.Exponent) && RR(old(val(x.Coeff)), exp - old(x.Exponent)) != 0)) && (has(ret0, Inexact) ==> has(ret0, Rounded)))
+//@   ensures [range] wfctx(c) && old(x.Form == Finite) && (exp < etiny(c) || (exp > c.MaxExponent && old(inrange(x)) && exp <= 100000 && exp - old(x.Exponent) <= 100000 && old(x.Exponent) - exp <= 100000)) ==> (d.Form == NaN && ret0 == InvalidOperation)
+//@   ensures [toomanyup] wfctx(c) && old(qguard(c, x, exp)) && exp <= old(x.Exponent) && etiny(c) <= exp && exp <= c.MaxExponent && nd10(old(val(x.Coeff)) * pow10(old(x.Exponent) - exp)) > c.Precision ==> (d.Form == NaN && ret0 == InvalidOperation)
+//@   ensures [toomanydown] wfctx(c) && old(qguard(c, x, exp)) && exp > old(x.Exponent) && etiny(c) <= exp && exp <= c.MaxExponent && nd10(RND(c.Rounding, old(x.Negative), old(val(x.Coeff)), exp - old(x.Exponent))) > c.Precision ==> hassys(ret0) || (d.Form == NaN && ret0 == InvalidOperation)
 
 //@ func (*Context).Ceil
 //@   props C03 C04 C05 C06 C08 C09
@@ -1517,6 +1533,9 @@ package apd
 //@   ensures [closed] closed(ret0)
 //@   ensures [nan] NaN1(x, d, ret0)
 //@   ensures [inf] Inf1(x, old(x.Negative), d, ret0)
+//@   ensures [trap] ret1 != nil <==> trapped(c, ret0)
+//@   ensures [up] wfctx(c) && old(x.Form == Finite && inrange(x) && !x.Negative && fracnz(x)) ==> Rounded(c, false, old(intpart(x)) + 1, 0, d, ret0)
+//@   ensures [same] old(x.Form == Finite && inrange(x) && (x.Negative || !fracnz(x))) ==> (d.Form == Finite && d.Negative == old(x.Negative) && val(d.Coeff) == old(intpart(x)) && d.Exponent == max(old(x.Exponent), 0) && ret0 == 0)
 
 //@ func (*Context).Floor
 //@   props C03 C04 C05 C06 C08 C09
@@ -1527,6 +1546,9 @@ package apd
 //@   ensures [closed] closed(ret0)
 //@   ensures [nan] NaN1(x, d, ret0)
 //@   ensures [inf] Inf1(x, old(x.Negative), d, ret0)
+//@   ensures [trap] ret1 != nil <==> trapped(c, ret0)
+//@   ensures [down] wfctx(c) && old(x.Form == Finite && inrange(x) && x.Negative && fracnz(x)) ==> Rounded(c, true, old(intpart(x)) + 1, 0, d, ret0)
+//@   ensures [same] old(x.Form == Finite && inrange(x) && (!x.Negative || !fracnz(x))) ==> (d.Form == Finite && d.Negative == old(x.Negative) && val(d.Coeff) == old(intpart(x)) && d.Exponent == max(old(x.Exponent), 0) && ret0 == 0)
 
 //@ func (*Context).Pow
 //@   props C03 C04 C05 C06 C08 C18
